@@ -1,7 +1,7 @@
 """C13 — the result does not depend on the container or memory layout (clauses)."""
 import re
 
-from ..engines import flow, index_rules, witness
+from ..engines import flow, index_rules, witness, loadwidth
 from ..progs import programs
 from ..sym import Sym, fmt, short
 
@@ -185,7 +185,7 @@ def no_address_dependence(rep, prog, rule):
                 if st[0] == "a" and st[2][0] == "cast" and "Expose" in st[2][1]:
                     rep.bad(rule, "%s|ptr-to-int" % f.name, st[3], "%s casts a pointer to an "
                             "integer" % f.name)
-    rep.floor(rule, "calls scanned in kernel modules", scanned, 3000)
+    rep.floor(rule, "calls scanned in kernel modules", scanned, 2500)
     rep.ok(rule, "kernel-scan", "", "%d calls scanned, %d align_to sites" % (scanned, n))
 
 
@@ -198,6 +198,7 @@ def run(rep, tier):
         index_rules.cropped_row_slices(rep, prog, "C13.view-offsets-cropped")
         dispatch_pure(rep, prog, "C13.dispatch-pure")
         no_address_dependence(rep, prog, "C13.no-address-dependence")
+        loadwidth.guard_adequacy(rep, prog, "C13.row-end", loadwidth.FLOOR.get(cfg, 50))
     if tier == "thorough":
         rep.set_cfg("witness")
         witness.report(rep, "C13.types", ["W6"])
